@@ -38,6 +38,8 @@ func classify(msg string) string {
 	switch {
 	case strings.Contains(msg, "neither data nor an error"):
 		return "dangling-reference"
+	case strings.Contains(msg, "only received through a get response"):
+		return "event-after-get"
 	case strings.Contains(msg, "does not hold"):
 		return "event-for-unheld"
 	case strings.Contains(msg, "after its delete event"):
